@@ -4,8 +4,11 @@
 //!
 //! usage: seaq-harness <PROP> --tier quick|thorough --seed N --driver PATH [--replay FILE]
 
+mod c03;
 mod c16;
 mod c17;
+mod reflex;
+mod sq;
 mod util;
 
 use std::collections::{BTreeMap, HashSet};
@@ -34,6 +37,7 @@ pub struct Ctx {
     pub samples: Vec<serde_json::Value>,
     pub oracle_failures: Vec<serde_json::Value>,
     pub oracle_fail_count: u64,
+    fail_keys: BTreeMap<String, u64>,
     pub known: Vec<serde_json::Value>,
     pub rule: String,
     pub exhaustive: bool,
@@ -73,7 +77,14 @@ impl Ctx {
     /// The property itself, evaluated on the real crate, failed for this input.
     pub fn oracle_fail(&mut self, what: &str, input: serde_json::Value) {
         self.oracle_fail_count += 1;
-        if self.oracle_failures.len() < 50 {
+        // keep a few examples per class (or per what/position when unclassified)
+        let key = match input.get("class").and_then(|c| c.as_str()) {
+            Some(c) => c.to_string(),
+            None => format!("{}|{}|{}", what, input.get("position").and_then(|p| p.as_str()).unwrap_or(""), input.get("backend").and_then(|p| p.as_str()).unwrap_or("")),
+        };
+        let n = self.fail_keys.entry(key).or_insert(0);
+        *n += 1;
+        if *n <= 3 && self.oracle_failures.len() < 90 {
             self.oracle_failures.push(serde_json::json!({"what": what, "input": input}));
         }
     }
@@ -163,6 +174,7 @@ fn main() {
         samples: Vec::new(),
         oracle_failures: Vec::new(),
         oracle_fail_count: 0,
+        fail_keys: BTreeMap::new(),
         known: Vec::new(),
         rule: String::new(),
         exhaustive: false,
@@ -171,6 +183,7 @@ fn main() {
     };
 
     let ok = match prop.as_str() {
+        "C03" => { c03::run(&mut ctx); true }
         "C16" => { c16::run(&mut ctx); true }
         "C17" => { c17::run(&mut ctx); true }
         _ => false,
